@@ -34,7 +34,7 @@ func startWatchdog() {
 		var ms runtime.MemStats
 		tick := 0
 		for {
-			time.Sleep(2 * time.Millisecond)
+			time.Sleep(10 * time.Millisecond)
 			tick++
 			wd.mu.Lock()
 			if !wd.active {
@@ -44,7 +44,7 @@ func startWatchdog() {
 			status := ""
 			if time.Since(wd.start) > wd.budget {
 				status = "hang"
-			} else if tick%4 == 0 {
+			} else if tick%5 == 0 {
 				runtime.ReadMemStats(&ms)
 				if ms.HeapAlloc > wd.capBytes {
 					status = "runaway"
@@ -83,19 +83,20 @@ func guard(budget time.Duration, capBytes uint64, f func()) (panicked string) {
 }
 
 func worker() {
-	lines := readLines(*inPath)
-	b := *to
-	if b < 0 || b > len(lines) {
-		b = len(lines)
+	cnt := -1
+	if *to >= 0 {
+		cnt = *to - *from
 	}
+	lines, _ := readLines(*inPath, *offFlag, cnt)
 	startWatchdog()
-	for i := *from; i < b; i++ {
+	for j := range lines {
+		i := *from + j
 		var r reply
 		switch *kind {
 		case "indent":
-			r = indentOne(i, lines[i])
+			r = indentOne(i, lines[j])
 		case "wuffs":
-			r = wuffsOne(i, lines[i])
+			r = wuffsOne(i, lines[j])
 		default:
 			die("unknown -kind %q", *kind)
 		}
